@@ -395,6 +395,21 @@ func c15PathLimits(e *Env) {
 		okLim := false
 		for _, i := range core.IfsOf(f) {
 			cmp, is := core.EdgeFacts(i, true)
+			if !is {
+				// the limit test extracted into a predicate helper (`if isTooLong(seg)`): the comparison the helper returns
+				if c, isCall := core.StripNotValue(i.Cond).(*ssa.Call); isCall {
+					if h := core.AbsorbedCallee(c); h != nil && h.Signature.Results().Len() == 1 {
+						rets := core.ReturnsOf(h)
+						if len(rets) == 1 {
+							if hc, isCmp := core.AsCmp(core.RetVal(rets[0], 0)); isCmp {
+								if _, neg := core.StripNot(i.Cond); !neg {
+									cmp, is = hc, true
+								}
+							}
+						}
+					}
+				}
+			}
 			if !is || cmp.Op != token.GTR {
 				continue
 			}
